@@ -2,7 +2,7 @@
 
 A grid spec is a JSON-able dict:
   {"kind": "cart", "shape": [..], "dx": [..], "origin": [..], "periodic": [..]}
-  {"kind": "polar"|"sph", "n": N, "R": R_outer}            (inner radius 0)
+  {"kind": "polar"|"sph", "n": N, "R": R_outer[, "r0": R_inner]}   (inner radius 0 unless "r0" is given: annular grid)
   {"kind": "cyl", "shape": [nr, nz], "R": R, "z": [z0, z1], "periodic_z": bool}
 """
 import itertools
@@ -21,9 +21,9 @@ def make_grid(spec):
         bounds = [(o, o + n * d) for o, n, d in zip(spec["origin"], spec["shape"], spec["dx"])]
         return pde.CartesianGrid(bounds, spec["shape"], periodic=list(spec["periodic"]))
     if k == "polar":
-        return pde.PolarSymGrid(spec["R"], spec["n"])
+        return pde.PolarSymGrid((spec["r0"], spec["R"]) if spec.get("r0") else spec["R"], spec["n"])
     if k == "sph":
-        return pde.SphericalSymGrid(spec["R"], spec["n"])
+        return pde.SphericalSymGrid((spec["r0"], spec["R"]) if spec.get("r0") else spec["R"], spec["n"])
     if k == "cyl":
         return pde.CylindricalSymGrid(spec["R"], tuple(spec["z"]), tuple(spec["shape"]), periodic_z=spec["periodic_z"])
     raise ValueError(k)
@@ -76,10 +76,10 @@ def cell_volumes(spec):
     if k == "cart":
         return np.full(spec["shape"], float(np.prod(spec["dx"])))
     if k == "polar":
-        r = np.linspace(0, spec["R"], spec["n"] + 1)
+        r = np.linspace(spec.get("r0", 0.0), spec["R"], spec["n"] + 1)
         return PI * (r[1:] ** 2 - r[:-1] ** 2)
     if k == "sph":
-        r = np.linspace(0, spec["R"], spec["n"] + 1)
+        r = np.linspace(spec.get("r0", 0.0), spec["R"], spec["n"] + 1)
         return 4 * PI / 3 * (r[1:] ** 3 - r[:-1] ** 3)
     if k == "cyl":
         nr, nz = spec["shape"]
@@ -96,8 +96,8 @@ def sym_dist(spec, centre):
     """
     k = spec["kind"]
     if k in ("polar", "sph"):
-        dr = spec["R"] / spec["n"]
-        return (np.arange(spec["n"]) + 0.5) * dr
+        dr = radial_spacing(spec)
+        return spec.get("r0", 0.0) + (np.arange(spec["n"]) + 0.5) * dr
     if k == "cyl":
         nr, nz = spec["shape"]
         dr = spec["R"] / nr
@@ -108,6 +108,12 @@ def sym_dist(spec, centre):
         dzv = min_image(z - centre[2], Lz, spec["periodic_z"])
         return np.sqrt(r[:, None] ** 2 + dzv[None, :] ** 2)
     raise ValueError(k)
+
+
+def radial_spacing(spec):
+    if spec["kind"] in ("polar", "sph"):
+        return (spec["R"] - spec.get("r0", 0.0)) / spec["n"]
+    return spec["R"] / spec["shape"][0]
 
 
 def dist_field(spec, centre):
